@@ -89,6 +89,20 @@ var c01Hand = []string{
 	`func count(n) if n=0 then 0 else 1+count(n-1); count(6)+a`,
 	`let f=x->y->x+y; let g=f(a); g(b)+g(c)`,
 	`func even(n) if n=0 then true else !even(n-1); if even(4) then a else b`,
+	// shadowing: a closure or func body that uses a captured outer name and binds the same name itself
+	`let y=a+1; let f=x->[y, let y=x*2; y]; f(b)`,
+	`let y=a+1; func g(x) [y, let y=x*3; y, y]; g(b)`,
+	`let y=a; let f=x->(y->y+x)(x*2)+y; f(b)`,
+	`let y=a; let f=x->y+(try let y=x+1; y*2 catch 0); f(b)`,
+	`let t=c*2; [1,2].map(e->t+[let t=e*a; t][0]).sum()`,
+	`let y=a; func g(x) if x<b then y else [let y=x+1; y][0]+y; g(c)`,
+	`let y=a; let f=x->let g=z->[y, let y=z+x; y][1]+y; g(b); f(c)`,
+	`let y=a; (y->y*2)(b)+(x->let y=x+1; y)(c)+y`,
+	// constant conditions that are no bools are errors, not the else branch
+	`if 1 then a else b`,
+	`(x->if "s" then x else 0)(a)`,
+	`switch a case b: (if 0 then 1 else 2) default 3`,
+	`try (if 2 then a else b) catch c`,
 }
 
 func c01Expand(t string, id int) string { return strings.ReplaceAll(t, "#", strconv.Itoa(id)) }
@@ -131,6 +145,7 @@ func c01Jobs(tier string, seed int64) []string {
 	}
 	g := &progGen{r: rng(seed, "c01rnd")}
 	for i := 0; i < n; i++ {
+		g.shadow = i%2 == 1 // every second program reuses visible names (shadowing)
 		jobs = append(jobs, "rnd:"+g.program())
 	}
 	return jobs
@@ -166,34 +181,105 @@ func c01Run(job string) {
 // ---- seeded random programs (int-typed expressions with binders) ----
 
 type progGen struct {
-	r interface{ Intn(int) int }
-	n int
+	r      interface{ Intn(int) int }
+	n      int
+	shadow bool     // reuse visible names for parameters and for lets of inner function bodies
+	args   []string // argument names (default a, b, c)
 }
 
 func (g *progGen) fresh(p string) string { g.n++; return p + strconv.Itoa(g.n) }
 
+// scope: the names visible at a program point and which of them are bound in the
+// current function body (a non-constant let must not clash with those; parameters and
+// lets of an inner body may shadow everything outside).
+type pscope struct {
+	vars  []string
+	local map[string]bool
+}
+
+func (sc pscope) with(n string) pscope {
+	l := map[string]bool{}
+	for k := range sc.local {
+		l[k] = true
+	}
+	l[n] = true
+	return pscope{vars: append(append([]string{}, sc.vars...), n), local: l}
+}
+
+// inner opens a new function body with the given parameters.
+func (sc pscope) inner(params ...string) pscope {
+	l := map[string]bool{}
+	vs := append([]string{}, sc.vars...)
+	for _, p := range params {
+		l[p] = true
+		vs = append(vs, p)
+	}
+	return pscope{vars: vs, local: l}
+}
+
+// letName picks the name of a new let: fresh, or (shadow mode) a visible name of an outer body.
+func (g *progGen) letName(sc pscope) string {
+	if g.shadow && g.r.Intn(2) == 0 {
+		var cand []string
+		for _, v := range sc.vars {
+			if !sc.local[v] {
+				cand = append(cand, v)
+			}
+		}
+		if len(cand) > 0 {
+			return cand[g.r.Intn(len(cand))]
+		}
+	}
+	return g.fresh("v")
+}
+
+// paramName picks a parameter name: fresh, or (shadow mode) any visible name not among taken.
+func (g *progGen) paramName(sc pscope, prefix string, taken ...string) string {
+	if g.shadow && g.r.Intn(2) == 0 && len(sc.vars) > 0 {
+		n := sc.vars[g.r.Intn(len(sc.vars))]
+		ok := true
+		for _, t := range taken {
+			ok = ok && t != n
+		}
+		if ok {
+			return n
+		}
+	}
+	return g.fresh(prefix)
+}
+
 func (g *progGen) program() string {
 	g.n = 0
-	return g.letpos(3, []string{"a", "b", "c"})
+	args := g.args
+	if args == nil {
+		args = []string{"a", "b", "c"}
+	}
+	sc := pscope{local: map[string]bool{}}
+	for _, a := range args {
+		sc = sc.with(a)
+	}
+	return g.letpos(3, sc)
 }
 
 // letpos generates an expression for a let-position (may start with let/func).
-func (g *progGen) letpos(d int, vars []string) string {
+func (g *progGen) letpos(d int, sc pscope) string {
 	if d > 0 {
 		switch g.r.Intn(5) {
 		case 0:
-			n := g.fresh("v")
-			return "let " + n + "=" + g.expr(d-1, vars) + "; " + g.letpos(d-1, append(append([]string{}, vars...), n))
+			n := g.letName(sc)
+			return "let " + n + "=" + g.expr(d-1, sc) + "; " + g.letpos(d-1, sc.with(n))
 		case 1:
-			f, p := g.fresh("f"), g.fresh("p")
-			body := g.letpos(d-1, append(append([]string{}, vars...), p))
-			return "func " + f + "(" + p + ") " + body + "; " + f + "(" + g.letpos(d-1, vars) + ")+" + g.expr(d-1, vars)
+			f := g.fresh("f")
+			p := g.paramName(sc, "p")
+			body := g.letpos(d-1, sc.inner(p))
+			return "func " + f + "(" + p + ") " + body + "; " + f + "(" + g.letpos(d-1, sc) + ")+" + g.expr(d-1, sc)
 		}
 	}
-	return g.expr(d, vars)
+	return g.expr(d, sc)
 }
 
-func (g *progGen) expr(d int, vars []string) string {
+func (g *progGen) expr(d int, sc pscope) string {
+	vars := sc.vars
 	if d <= 0 {
 		if g.r.Intn(3) == 0 {
 			return strconv.Itoa(g.r.Intn(7))
@@ -202,30 +288,32 @@ func (g *progGen) expr(d int, vars []string) string {
 	}
 	switch g.r.Intn(12) {
 	case 0, 1:
-		return "(" + g.expr(d-1, vars) + []string{"+", "-", "*"}[g.r.Intn(3)] + g.expr(d-1, vars) + ")"
+		return "(" + g.expr(d-1, sc) + []string{"+", "-", "*"}[g.r.Intn(3)] + g.expr(d-1, sc) + ")"
 	case 2:
-		p := g.fresh("x")
-		return "(" + p + "->" + g.letpos(d-1, append(append([]string{}, vars...), p)) + ")(" + g.letpos(d-1, vars) + ")"
+		p := g.paramName(sc, "x")
+		return "(" + p + "->" + g.letpos(d-1, sc.inner(p)) + ")(" + g.letpos(d-1, sc) + ")"
 	case 3:
-		p, q := g.fresh("x"), g.fresh("y")
-		return "((" + p + "," + q + ")->" + g.letpos(d-1, append(append([]string{}, vars...), p, q)) + ")(" + g.letpos(d-1, vars) + "," + g.letpos(d-1, vars) + ")"
+		p := g.paramName(sc, "x")
+		q := g.paramName(sc, "y", p)
+		return "((" + p + "," + q + ")->" + g.letpos(d-1, sc.inner(p, q)) + ")(" + g.letpos(d-1, sc) + "," + g.letpos(d-1, sc) + ")"
 	case 4:
-		return "(if " + g.expr(d-1, vars) + "<" + g.expr(d-1, vars) + " then " + g.letpos(d-1, vars) + " else " + g.letpos(d-1, vars) + ")"
+		return "(if " + g.expr(d-1, sc) + "<" + g.expr(d-1, sc) + " then " + g.letpos(d-1, sc) + " else " + g.letpos(d-1, sc) + ")"
 	case 5:
-		return "(switch " + g.expr(d-1, vars) + " case " + strconv.Itoa(g.r.Intn(3)) + ": " + g.letpos(d-1, vars) + " default " + g.letpos(d-1, vars) + ")"
+		return "(switch " + g.expr(d-1, sc) + " case " + strconv.Itoa(g.r.Intn(3)) + ": " + g.letpos(d-1, sc) + " default " + g.letpos(d-1, sc) + ")"
 	case 6:
-		return "(try " + g.letpos(d-1, vars) + " catch " + g.letpos(d-1, vars) + ")"
+		return "(try " + g.letpos(d-1, sc) + " catch " + g.letpos(d-1, sc) + ")"
 	case 7:
-		return "[" + g.letpos(d-1, vars) + "," + g.letpos(d-1, vars) + "][" + strconv.Itoa(g.r.Intn(2)) + "]"
+		return "[" + g.letpos(d-1, sc) + "," + g.letpos(d-1, sc) + "][" + strconv.Itoa(g.r.Intn(2)) + "]"
 	case 8:
-		p := g.fresh("e")
-		return "[" + g.expr(d-1, vars) + "," + g.expr(d-1, vars) + "].map(" + p + "->" + g.letpos(d-1, append(append([]string{}, vars...), p)) + ").sum()"
+		p := g.paramName(sc, "e")
+		return "[" + g.expr(d-1, sc) + "," + g.expr(d-1, sc) + "].map(" + p + "->" + g.letpos(d-1, sc.inner(p)) + ").sum()"
 	case 9:
-		return "{k:" + g.letpos(d-1, vars) + ",j:" + g.letpos(d-1, vars) + "}." + []string{"k", "j"}[g.r.Intn(2)]
+		return "{k:" + g.letpos(d-1, sc) + ",j:" + g.letpos(d-1, sc) + "}." + []string{"k", "j"}[g.r.Intn(2)]
 	case 10:
-		p, q := g.fresh("x"), g.fresh("y")
-		return "(" + p + "->" + q + "->" + g.expr(d-1, append(append([]string{}, vars...), p, q)) + ")(" + g.expr(d-1, vars) + ")(" + g.letpos(d-1, vars) + ")"
+		p := g.paramName(sc, "x")
+		q := g.paramName(sc, "y")
+		return "(" + p + "->" + q + "->" + g.expr(d-1, sc.inner(p).inner(q)) + ")(" + g.expr(d-1, sc) + ")(" + g.letpos(d-1, sc) + ")"
 	default:
-		return "min(" + g.letpos(d-1, vars) + "," + g.letpos(d-1, vars) + ")"
+		return "min(" + g.letpos(d-1, sc) + "," + g.letpos(d-1, sc) + ")"
 	}
 }
